@@ -194,6 +194,9 @@ Definition neighborhood (s : nbr) (row : list R) (oracle : list nat) : option (l
 
 Definition a_dflt (s : nbr) : A -> A := fun a => a.
 
+Definition nnprob_len_ok (s : nbr) : bool :=
+  match n_nnprob s with Some p => Nat.eqb (length p) (length (n_arms s)) | None => true end.
+
 (* one row: lp is the chunk's deep copy (threaded through the rows of the chunk) *)
 Definition nbr_row (s : nbr) (l : lp) (seed : Z) (row : list R) (oracle : list nat) (is_predict : bool)
   : option ((option A + list (A * option R)) * lp) :=
@@ -202,6 +205,9 @@ Definition nbr_row (s : nbr) (l : lp) (seed : Z) (row : list R) (oracle : list n
   | None => None
   | Some [] =>
       if is_predict then
+        (* rng.choice(len(arms), p=no_nhood_prob_of_arm) raises when the list no longer has one entry per arm
+           (add_arm / remove_arm do not resize it: finding D24) *)
+        if negb (nnprob_len_ok s) then None else
         let (v, _) := draw_z RG g (RqChoice (length (n_arms s)) (n_nnprob s)) in
         Some (inl (nth_error (n_arms s) (Z.to_nat (match v with x :: _ => x | [] => 0%Z end))), l)
       else Some (inr (n_exp s), l)
